@@ -16,6 +16,7 @@
 #include <sstream>
 #include <stack>
 #include <string>
+#include <sys/time.h>
 #include <sys/wait.h>
 #include <system_error>
 #include <type_traits>
@@ -838,7 +839,12 @@ void run_isolated(Case const &c)
   pid_t pid = fork();
   if(pid == 0) {
     for(int sig : {SIGSEGV, SIGABRT, SIGALRM, SIGBUS, SIGFPE, SIGPIPE}) signal(sig, dump_on_signal);
-    alarm(6);
+    // watchdog: 6 s of the case's own CPU time (a case runs for milliseconds; nothing in it blocks for real, a hang is a busy loop) —
+    // reported as SIGALRM; wall-clock time is only the back-stop, so that a loaded or stalled machine cannot fake a hang
+    signal(SIGPROF, [](int) { dump_on_signal(SIGALRM); });
+    struct itimerval cpu_limit{{0, 0}, {6, 0}};
+    setitimer(ITIMER_PROF, &cpu_limit, nullptr);
+    alarm(120);
     run_case(c);
     _exit(0);
   }
